@@ -50,7 +50,7 @@ Inductive val :=
 | VA (l : list val)           (* numpy array *)
 | VO (cls : string) (fields : list (string * val)).   (* an object: its class name and the attributes set so far *)
 
-Inductive binop := Add | Sub | Mul | Div | FloorDiv | Mod.
+Inductive binop := Add | Sub | Mul | Div | FloorDiv | Mod | Pow.   (* Pow: x ** n, n a non-negative int *)
 Inductive cmpop := CLt | CLe | CGt | CGe | CEq | CNe.
 
 (** comprehensions: [e for x in it] (a list), all(e for x in it), any(e for x in it);
@@ -77,7 +77,8 @@ Inductive expr :=
 | ESliceTo (a : expr) (k : Z)                (* a[:k]  (k = -1: all but the last; k >= 0: first k) *)
 | ESliceFrom (a : expr) (k : Z)              (* a[k:], k >= 0 *)
 | ECallStar (f : string) (args : list expr) (star : expr)    (* f(args, *star): the elements of the sequence [star] are the last positional arguments *)
-| ECompT (k : comp_kind) (targets : list string) (it : expr) (body : expr).   (* a comprehension with a tuple target: e for a, b in it *)
+| ECompT (k : comp_kind) (targets : list string) (it : expr) (body : expr)    (* a comprehension with a tuple target: e for a, b in it *)
+| ESliceToE (a : expr) (k : expr).           (* a[:k], k computed and >= 0 (a negative k counts from the end: outside the fragment) *)
 
 Inductive stmt :=
 | SAssign (targets : list string) (e : expr)     (* x = e ; a, b = e *)
@@ -93,11 +94,12 @@ Inductive stmt :=
 | SRaise
 | SReturn (e : expr)
 | SPass
-| SMethod (x : string) (m : string) (args : list expr).
+| SMethod (x : string) (m : string) (args : list expr)
     (* x.m(args) as a statement, where the method may mutate x (fit): x is rebound to the object that the
        specification "mut:m" in the [user] table returns for (x :: args); the method's result is dropped.
        Faithful when no alias of x is live: the serialiser admits it for [self] only, and only in functions
        where [self] occurs in no other way than [self.a], [self.m(..)] and [return self] *)
+| SSetCol (x : string) (i : expr) (e : expr).   (* x[:, i] = e, x a 2-D array, e a 1-D array with one element per row *)
 
 Record func := { f_params : list string; f_body : list stmt }.
 
@@ -120,6 +122,10 @@ Definition toQ (v : val) : option Q :=
 Definition qfloordiv (x y : Q) : Q := inject_Z (Qfloor (x / y)).
 Definition qmod (x y : Q) : Q := x - y * inject_Z (Qfloor (x / y)).
 
+(** [x ** n] for a non-negative int n, by repeated multiplication (0 ** 0 = 1, as in Python and numpy) *)
+Fixpoint qpow_nat (x : Q) (n : nat) : Q :=
+  match n with O => 1 | S k => x * qpow_nat x k end.
+
 Definition arith (op : binop) (a b : val) : option val :=
   match op, a, b with
   | Add, VZ x, VZ y => Some (VZ (x + y))
@@ -139,6 +145,13 @@ Definition arith (op : binop) (a b : val) : option val :=
   | Mod, _, _ => match toQ a, toQ b with
                  | Some x, Some y => if Qeqb y 0 then None else Some (VQ (qmod x y))
                  | _, _ => None end
+  (* x ** n: a negative exponent (a float from ints in Python, an error on numpy int arrays, a zero
+     division for 0.0) and a float exponent are outside the fragment *)
+  | Pow, VZ x, VZ y => if (y <? 0)%Z then None else Some (VZ (x ^ y))
+  | Pow, _, VZ y => match toQ a with
+                    | Some x => if (y <? 0)%Z then None else Some (VQ (qpow_nat x (Z.to_nat y)))
+                    | None => None end
+  | Pow, _, _ => None
   end.
 
 Section MapOpt.
@@ -453,6 +466,24 @@ Fixpoint format_one (fmt arg : string) : option string :=
 (** str(z) of a Python int *)
 Definition str_of_Z (z : Z) : string := NilZero.string_of_int (Z.to_int z).
 
+(** x in seq for a list / tuple of scalars, strings or tuples (== on each element, left to right) *)
+Fixpoint member (x : val) (l : list val) : option bool :=
+  match l with
+  | [] => Some false
+  | y :: t => match cmp_val CEq x y with
+              | Some true => Some true
+              | Some false => member x t
+              | None => None end
+  end.
+
+(** max of a non-empty sequence of ints *)
+Fixpoint max_ints (l : list val) : option Z :=
+  match l with
+  | [VZ z] => Some z
+  | VZ z :: t => match max_ints t with Some m => Some (Z.max z m) | None => None end
+  | _ => None
+  end.
+
 (** builtins of the fragment, on exact numbers *)
 Definition call (f : string) (args : list val) : option (option val) :=   (* None: stuck; Some None: raises *)
   let is := String.eqb f in
@@ -605,6 +636,19 @@ Definition call (f : string) (args : list val) : option (option val) :=   (* Non
         else None
     | _ => None
     end
+  else if is "in" then                  (* x in seq: the serialiser renders `a in e` for a non-literal e as a call of "in" *)
+    match args with
+    | [x; VL l] | [x; VT l] => match member x l with Some b => Some (Some (VB b)) | None => None end
+    | _ => None
+    end
+  else if is "max" then                 (* max(seq) of ints; an empty sequence raises ValueError *)
+    match args with
+    | [VL []] | [VT []] => Some None
+    | [VL l] | [VT l] => match max_ints l with Some m => Some (Some (VZ m)) | None => None end
+    | _ => None
+    end
+  else if is "np.ravel" then            (* a 1-D array is its own raveling *)
+    match args with [VA l] => if all_scalar l then Some (Some (VA l)) else None | _ => None end
   else None.
 
 (** binding the target(s) of a comprehension with a tuple target (the same as [bind_pattern] below) *)
@@ -828,6 +872,20 @@ Fixpoint eval (env : list (string * val)) (e : expr) {struct e} : option (option
       | Some None => Some None
       | None => None
       end
+  | ESliceToE a k =>
+      match eval env a, eval env k with
+      | Some (Some v), Some (Some (VZ n)) =>
+          if (n <? 0)%Z then None else
+          match v with
+          | VL l => ret (VL (firstn (Z.to_nat n) l))
+          | VT l => ret (VT (firstn (Z.to_nat n) l))
+          | VA l => ret (VA (firstn (Z.to_nat n) l))
+          | _ => None
+          end
+      | Some None, _ => Some None
+      | Some (Some _), Some None => Some None
+      | _, _ => None
+      end
   end.
 
 Fixpoint bind_targets (targets : list string) (vs : list val) (env : list (string * val))
@@ -875,6 +933,32 @@ Definition set_slice_to (a : val) (k : Z) (v : val) : option (option val) :=
             | Some (VA r) => Some (Some (VA (r ++ skipn (Z.to_nat k) l)))
             | _ => None end
   | _ => None
+  end.
+
+(** x[:, j] = v: element k of the 1-D array v goes to row k, column j (cast to the array's type, as
+    [set_item] does).  An array without rows has lost its number of columns (numpy raises IndexError for
+    j out of range even then), and a scalar or shorter v would broadcast: outside the fragment *)
+Fixpoint set_col_rows (rows vs : list val) (j : Z) : option (option (list val)) :=
+  match rows, vs with
+  | [], [] => Some (Some [])
+  | VA r :: rows', x :: vs' =>
+      match set_item (VA r) j x with
+      | Some (Some r') => match set_col_rows rows' vs' j with
+                          | Some (Some t) => Some (Some (r' :: t))
+                          | o => o end
+      | Some None => Some None
+      | None => None
+      end
+  | _, _ => None
+  end.
+
+Definition set_col (a : val) (j : Z) (v : val) : option (option val) :=
+  match a, v with
+  | VA (r :: rows), VA vs => match set_col_rows (r :: rows) vs j with
+                             | Some (Some t) => Some (Some (VA t))
+                             | Some None => Some None
+                             | None => None end
+  | _, _ => None
   end.
 
 Fixpoint exec (s : stmt) (env : list (string * val)) {struct s} : outcome :=
@@ -1002,6 +1086,17 @@ Fixpoint exec (s : stmt) (env : list (string * val)) {struct s} : outcome :=
           end
       | Some _, Some None => Raised
       | _, _ => Stuck
+      end
+  | SSetCol x i e =>
+      match lookup env x, eval env i, eval env e with
+      | Some a, Some (Some (VZ j)), Some (Some v) =>
+          match set_col a j v with
+          | Some (Some a') => Normal ((x, a') :: env)
+          | Some None => Raised
+          | None => Stuck end
+      | Some _, Some None, _ => Raised
+      | Some _, Some (Some _), Some None => Raised
+      | _, _, _ => Stuck
       end
   end.
 
